@@ -1253,6 +1253,11 @@ class H2Stream:
                 headers, hdr_validation_flags
             )
 
+        # The steps above are lazy generators that raise as they are consumed.
+        # Consume them before the encoder sees anything: encoding changes the
+        # compression context irreversibly.
+        headers = list(headers)
+
         encoded_headers = encoder.encode(headers)
 
         # Slice into blocks of max_outbound_frame_size. Be careful with this:
